@@ -123,6 +123,16 @@ REC_PARAMS = [("tz_utc", "TZ"), ("dv_fromtimestamp", "Z -> TZ -> DV"), ("dv_time
               ("pat_start_seconds", "PAT -> Z"), ("pat_duration_seconds", "PAT -> Z"),
               ("self_calendar_id", "CID"), ("self_calendar_summary", "CSUM"), ("self_calendar_timezone", "O:TZ")]
 
+RM_TYVARS = ["TZ", "DT", "EXD", "RR", "PART", "RECL", "MEV", "ID", "AEV", "EXC", "WRS"]
+RM_PARAMS = [("tz_utc", "TZ"), ("dt_fromtimestamp", "Z -> TZ -> DT"), ("dt_strftime_exdate", "DT -> EXD"),
+             ("parse_exdates_from_rrule", "RR -> RR * list EXD"), ("exd_eqb", "EXD -> EXD -> bool"),
+             ("mk_exdate_part", "list EXD -> PART"), ("rr_snoc", "RR -> PART -> RR"),
+             ("get_event", "ID -> MEV + EXC"), ("update_event", "MEV -> unit + EXC"),
+             ("mev_has_recurrence", "MEV -> bool"), ("mev_line", "MEV -> RR"),
+             ("mev_recurrence_with", "MEV -> RR -> RECL"), ("mev_set_recurrence", "MEV -> RECL -> MEV"),
+             ("wrs_error_fetch", "ID -> EXC -> WRS"), ("wrs_error_norec", "ID -> WRS"), ("wrs_error_nostart", "WRS"),
+             ("wrs_error_update", "EXC -> WRS"), ("wrs_success", "AEV -> WRS"), ("aev_start", "AEV -> option Z")]
+
 SPECS_GCSA = [
     # ---- _infer_is_all_day
     dict(name="g_gcsa_infer_is_all_day", file=GCSA, func="_infer_is_all_day", kind="expr", ret="B", gx=True,
@@ -374,4 +384,44 @@ SPECS_GCSA = [
                                           fixed={"hour": "0", "minute": "0", "second": "0", "microsecond": "0"}, ret="DV"),
                   ("DV", "timestamp"): dict(coq="dv_timestamp", args=[], ret="Z")},
          binops={("DV", "+", "TD"): ("dv_add", "DV")}),
+    # ---- _error_result, the wrapper of _handle_write_errors, Calendar._remove_recurring_instance (R12)
+    dict(name="g_gcsa_error_result", file=GCSA, func="_error_result", kind="expr", ret="WRS", gx=True,
+         tyvars=["EXC", "WRS"], types={"EXC": "EXC", "WRS": "WRS"},
+         params=[("wrs_error", "EXC -> WRS"), ("error", "EXC")],
+         patterns=[("[WriteResult(success=False, event=None, error=_1)]", "(wrs_error {0})", ["EXC"], "WRS")]),
+    dict(name="g_gcsa_handle_write_errors", file=GCSA, func="_handle_write_errors", inner_def="wrapper", kind="expr",
+         ret="WRS", res=True, gx=True, file_has=["from functools import wraps"],
+         tyvars=["EXC", "WRS"], types={"EXC": "EXC", "WRS": "WRS"},
+         params=[("wrs_error", "EXC -> WRS"), ("func_call", "WRS + EXC")],
+         try_calls={"func(*args, **kwargs)": ("func_call", "WRS")},
+         calls={"_error_result": dict(coq="g_gcsa_error_result", pre=["wrs_error"], args=["EXC"], ret="WRS")}),
+    dict(name="g_gcsa_remove_recurring_instance", file=GCSA, cls="Calendar", func="_remove_recurring_instance",
+         kind="expr", ret="WRS", res=True, gx=True, file_has=[DT_IMPORT],
+         tyvars=RM_TYVARS, types=dict({k: k for k in RM_TYVARS}, PARSED="(RR * list EXD)", U="unit"),
+         tuples={"PARSED": ["RR", "L:EXD"]}, eqbs={"EXD": "exd_eqb"},
+         params=RM_PARAMS + [("instance", "AEV"), ("master_event_id", "ID")],
+         try_calls={"self.calendar.get_event": dict(coq="get_event", args=["ID"],
+                                                    fixed={"calendar_id": "self.calendar_id"}, ret="MEV"),
+                    "self.calendar.update_event": dict(coq="update_event", args=["MEV"],
+                                                       fixed={"calendar_id": "self.calendar_id"}, ret="U")},
+         setattrs={("MEV", "recurrence"): ("mev_set_recurrence", "RECL")},
+         patterns=[("_error_result(ValueError(f'Failed to fetch master event {_1}: {_2}'))",
+                    "(wrs_error_fetch {0} {1})", ["ID", "EXC"], "WRS"),
+                   ("_error_result(ValueError(f'Master event {_1} has no recurrence'))", "(wrs_error_norec {0})",
+                    ["ID"], "WRS"),
+                   ("_error_result(ValueError('Instance must have a start time to add to exdates'))",
+                    "wrs_error_nostart", [], "WRS"),
+                   ("_error_result(ValueError(f'Failed to update master event: {_1}'))", "(wrs_error_update {0})",
+                    ["EXC"], "WRS"),
+                   ("not _1.recurrence", "(negb (mev_has_recurrence {0}))", ["MEV"], "B"),
+                   ("_1.recurrence[0]", "(mev_line {0})", ["MEV"], "RR"),
+                   ("[_1, *_2.recurrence[1:]]", "(mev_recurrence_with {1} {0})", ["RR", "MEV"], "RECL"),
+                   ("[WriteResult(success=True, event=_1, error=None)]", "(wrs_success {0})", ["AEV"], "WRS")],
+         calls={"_format_exdate": dict(coq="g_gcsa_format_exdate", pre=["tz_utc", "dt_fromtimestamp", "dt_strftime_exdate"],
+                                       args=["Z"], ret="EXD"),
+                "_parse_exdates_from_rrule": ("parse_exdates_from_rrule", ["RR"], "PARSED"),
+                "_add_exdate_to_rrule": dict(coq="g_gcsa_add_exdate_to_rrule",
+                                             pre=["parse_exdates_from_rrule", "exd_eqb", "mk_exdate_part", "rr_snoc"],
+                                             args=["RR", "EXD"], ret="RR")},
+         attrs={("AEV", "start"): ("aev_start", "OZ")}),
 ]
